@@ -309,6 +309,63 @@ theorem join_mapped {α : Type} (f : α → String) (a : Int → α) (ao : Int) 
     joinN (fun j => b (bo + j)) sep n = joinN (fun j => f (a (ao + j))) sep n :=
   joinN_ext _ _ sep n (fun j h0 h1 => h j h0 h1)
 
+/-! ### KAcc: an array rewritten in place, element by element (plan-summary keys, C15) -/
+
+def shiftA {α : Type} (a : Int → α) (o : Int) : Int → α := fun j => a (o + j)
+
+/-- KAcc(R, a, b, bo, n, L): b[bo+j] = f (a[j]) for j < n, and b[bo+j] = a[j] for n ≤ j < L  (f = psKey R) -/
+def kacc {α : Type} (f : α → α) (a b : Int → α) (bo n l : Int) : Prop :=
+  (∀ j, 0 ≤ j → j < n → b (bo + j) = f (a j)) ∧ (∀ j, n ≤ j → j < l → b (bo + j) = a j)
+
+/-- kacc-zero -/
+theorem kacc_zero {α : Type} (f : α → α) (a b : Int → α) (bo l : Int) (h : shiftA b bo = a) : kacc f a b bo 0 l := by
+  constructor
+  · intro j h0 h1; omega
+  · intro j _ _; rw [← h]; rfl
+
+/-- kacc-step -/
+theorem kacc_step {α : Type} (f : α → α) (a b : Int → α) (bo n l i : Int) (x : α) (m : Int)
+    (h : kacc f a b bo n l) (hn : 0 ≤ n) (_hl : n < l) (hm : m = n + 1) (hi : i = bo + n) (hx : x = f (a n)) :
+    kacc f a (store b i x) bo m l := by
+  constructor
+  · intro j h0 h1
+    by_cases hj : j = n
+    · subst hj; simp [store, hi, hx]
+    · have : bo + j ≠ i := by omega
+      simp [store, this]; exact h.1 j h0 (by omega)
+  · intro j h0 h1
+    have : bo + j ≠ i := by omega
+    simp [store, this]; exact h.2 j (by omega) h1
+
+/-- kacc-skip -/
+theorem kacc_skip {α : Type} (f : α → α) (a b : Int → α) (bo n l m : Int)
+    (h : kacc f a b bo n l) (_hn : 0 ≤ n) (hl : n < l) (hm : m = n + 1) (hfix : f (a n) = a n) : kacc f a b bo m l := by
+  constructor
+  · intro j h0 h1
+    by_cases hj : j = n
+    · subst hj; rw [hfix]; exact h.2 j (by omega) hl
+    · exact h.1 j h0 (by omega)
+  · intro j h0 h1; exact h.2 j (by omega) h1
+
+/-- kacc-cur -/
+theorem kacc_cur {α : Type} (f : α → α) (a b : Int → α) (bo n l : Int) (h : kacc f a b bo n l) (_hn : 0 ≤ n) (hl : n < l) :
+    b (bo + n) = a n := h.2 n (by omega) hl
+
+/-- kacc-join -/
+theorem kacc_join (f : String → String) (a b : Int → String) (bo : Int) (l : Nat) (sep : String) (h : kacc f a b bo l l) :
+    joinN (fun j => b (bo + j)) sep l = joinN (fun j => f (a j)) sep l :=
+  joinN_ext _ _ sep l (fun j h0 h1 => h.1 j h0 h1)
+
+/-- shift-store -/
+theorem shift_store {α : Type} (a : Int → α) (i : Int) (x : α) (o : Int) : shiftA (store a i x) o = store (shiftA a o) (i - o) x := by
+  funext j
+  simp only [shiftA, store]
+  by_cases hj : o + j = i
+  · have h2 : j = i - o := by omega
+    rw [if_pos hj, if_pos h2]
+  · have h2 : ¬ j = i - o := by omega
+    rw [if_neg hj, if_neg h2]
+
 /-! ### sets of strings (SSet) and the element set of an array segment -/
 
 abbrev SSet := String → Prop
